@@ -352,7 +352,7 @@ pub fn run(args: &Args) -> i32 {
     rep.set("bound_completed", json!(bound));
     rep.set("horizon_hits", json!(stats.horizon_hits));
     rep.set("determinism_replays", json!(replays));
-    rep.set("rule", json!(format!("protocol {{icmp,tcp}} x first_ttl {{1,2,5,30,253,254}} x max_ttl {{1,3,6,64,254}} x max_inflight {{1,2,3,24,255}} x target distance {{1,2,3,6,silent}} x response latency {{0, 2 receive calls}} (+ equal-cost branches of different length for distances >= 2; + long runs from initial sequence 64511 across the restart of the sequence space: 100 rounds x 6 probes to a silent target, 190 rounds x 3 probes to an answering one, <= 1 deviation (thorough: x max_inflight {2,24,255})), 3 rounds: all executions of the real Strategy::run with <= {bound} deviations (delay, reorder, duplicate, loss at recv_probe; AddressInUse at send_probe for tcp, transient ProbeFailed at any send_probe); monitor on the send/receive call trace; states = nodes of the choice tree; distinct_nontrivial = distinct (send trace, publish times) digests")));
+    rep.set("rule", json!(format!("protocol {{icmp,tcp}} x first_ttl {{1,2,5,30,253,254}} x max_ttl {{1,3,6,64,254}} x max_inflight {{1,2,3,24,255}} x target distance {{1,2,3,6,silent}} x response latency {{0, 2 receive calls}} (+ equal-cost branches of different length for distances >= 2; + long runs from initial sequence 64511 across the restart of the sequence space: 100 rounds x 6 probes to a silent target, 190 rounds x 3 probes to an answering one, <= 1 deviation (thorough: x max_inflight {{2,24,255}})), 3 rounds: all executions of the real Strategy::run with <= {bound} deviations (delay, reorder, duplicate, loss at recv_probe; AddressInUse at send_probe for tcp, transient ProbeFailed at any send_probe); monitor on the send/receive call trace; states = nodes of the choice tree; distinct_nontrivial = distinct (send trace, publish times) digests")));
     for s in samples {
         rep.sample(s);
     }
